@@ -111,6 +111,10 @@ pub(crate) mod helpers;
 #[path = "/verif/kani/support/containers.rs"]
 pub mod verif_containers;
 
+#[cfg(kani)]
+#[path = "/verif/kani/vrp-core/support.rs"]
+pub(crate) mod verif_support;
+
 #[macro_use]
 pub mod macros;
 pub mod prelude;
